@@ -2,7 +2,7 @@
    Statements only; each is closed by [exact] of a lemma proved in TreeProof*.v.  Model: Tree.v / TreeNF.v.
    [re.subn(pattern, new, ·)] is ANY function [subn : str -> str * nat]: every pattern, every replacement. *)
 From Coq Require Import List ZArith Bool. Import ListNotations.
-Require Import WS WSnfproof Tree TreeNF TreeProof TreeProof2 TreeProof3 TreeProof4 TreeProof8.
+Require Import WS WSnfproof Tree TreeNF TreeProof TreeProof2 TreeProof3 TreeProof4 TreeProof8 TreeProof10.
 
 (* replace(pattern, new): every text node becomes re.subn of itself, the markup stays where it is *)
 Theorem C16_replace : forall subn evs,
@@ -40,6 +40,16 @@ Theorem C16_formatted_nf : forall subn n, wsl n = true ->
   implied (own_flags subn n) (nf_flags (fst (repl subn true n))) = true.
 Proof. exact repl_fmt_nf. Qed.
 Print Assumptions C16_formatted_nf.
+(* the hypothesis [wsl] cannot be dropped: append_plain_text replaces a text:s by its count of spaces and drops what it
+   contains, so a text:s carrying character data (never produced by odfdo or a conforming producer) loses it *)
+Theorem C16_formatted_needs_leaf_spacers : exists subn n,
+  readable_ev (content (fst (repl subn true n))) <> readable_ev (replace_ev subn (content n)).
+Proof.
+  exists (fun s => match s with [Ch 0] => ([Ch 9], 1) | _ => (s, 0) end),
+         (Node KP 1 false (Some [Ch 0]) [Node (KS 1) 0 false (Some [Ch 5]) [] (Some [Ch 1])] None).
+  vm_compute. discriminate.
+Qed.
+Print Assumptions C16_formatted_needs_leaf_spacers.
 Example C16_formatted_example :   (* <p><span>xx</span> abc def</p>, "abc" -> "A<tab>B  C": the F27 witness on the repaired algorithm *)
   let subn := fun s : str => match s with [Sp; Ch 0; Ch 1; Ch 2; Sp; Ch 3] => ([Sp; Ch 7; Tb; Ch 8; Sp; Sp; Ch 9; Sp; Ch 3], 1) | _ => (s, 0) end in
   let n := Node KP 1 false None [Node KSpan 2 false (Some [Ch 5; Ch 5]) [] (Some [Sp; Ch 0; Ch 1; Ch 2; Sp; Ch 3])] None in
@@ -63,26 +73,39 @@ Example F27_pinned_result :   (* <p><span>xx</span> A<TAB>B  C def<text:s/>abc d
   [Txt []; Open KSpan 2; Txt [Ch 5; Ch 5]; Close; Txt [Sp; Ch 7; Tb; Ch 8; Sp; Sp; Ch 9; Sp; Ch 3]; Open (KS 1) 0; Close; Txt [Ch 0; Ch 1; Ch 2; Sp; Ch 3]].
 Proof. reflexivity. Qed.
 
-(* search*: what the code computes, and what the property asks *)
-Theorem C16_search_is_regex_on_text_recursive : forall find n,
-  search_ find n = option_map fst (find (inner_text n ++ oget (tail_of n))).
-Proof. reflexivity. Qed.
-Print Assumptions C16_search_is_regex_on_text_recursive.
-Definition C16_search_own_text : Prop :=
-  forall find n, search_ find n = option_map fst (find (inner_text n)).
-(* F28: a toy [re.search] for the literal "d" *)
+(* search / search_first / search_all / match / text_at, repaired code (fixes/F28 + F103): the positions index the
+   element's own readable text — text nodes with text:s / tab / line-break decoded, links as their text, notes and
+   annotations skipped, WITHOUT the element's own tail ([wsnt]: white-space elements carry no character data) *)
+Theorem C16_search_own_text : forall find n, wsnt n = true -> ws_kind (kind_of n) = false ->
+  search_ find n = option_map fst (find (readable_ev (content n))).
+Proof. intros find n W K. unfold search_. now rewrite (own_text_readable n W K). Qed.
+Print Assumptions C16_search_own_text.
+Theorem C16_search_family_own_text : forall find findall n st e, wsnt n = true -> ws_kind (kind_of n) = false ->
+  search_first_ find n = find (readable_ev (content n)) /\ search_all_ findall n = findall (readable_ev (content n))
+  /\ text_at_ n st e = text_at_ (Node KP 0 false (Some (readable_ev (content n))) [] None) st e.
+Proof.
+  intros find findall n st e W K. unfold search_first_, search_all_, text_at_. rewrite (own_text_readable n W K).
+  repeat split. cbn [own_text flat_map]. now rewrite app_nil_r.
+Qed.
+Print Assumptions C16_search_family_own_text.
+(* F28 + F103 on the PINNED code: the search ran over inner_text + tail *)
+Definition C16_search_own_text_pinned : Prop :=
+  forall find n, plain_tree n = true -> search_pinned_ find n = option_map fst (find (readable_ev (content n))).
+(* a toy [re.search] for the literal "d" *)
 Fixpoint find_ch (c : nat) (i : nat) (s : str) : option (nat * nat) :=
   match s with [] => None | Ch d :: r => if Nat.eqb c d then Some (i, S i) else find_ch c (S i) r | _ :: r => find_ch c (S i) r end.
-Theorem C16_search_own_text_refuted : ~ C16_search_own_text.
+Theorem C16_search_own_text_pinned_refuted : ~ C16_search_own_text_pinned.
 Proof.
-  intros H. specialize (H (find_ch 3 0) (Node KSpan 1 false (Some [Ch 0; Ch 1; Ch 2]) [] (Some [Sp; Ch 3; Ch 4; Ch 5]))).
+  intros H. specialize (H (find_ch 3 0) (Node KSpan 1 false (Some [Ch 0; Ch 1; Ch 2]) [] (Some [Sp; Ch 3; Ch 4; Ch 5])) eq_refl).
   vm_compute in H. discriminate.
 Qed.
-Print Assumptions C16_search_own_text_refuted.
-Theorem C16_search_own_text_partial : forall find n, tail_of n = None ->
-  search_ find n = option_map fst (find (inner_text n)).
-Proof. intros find n H. unfold search_, text_recursive. rewrite H. cbn [oget]. now rewrite app_nil_r. Qed.
-Print Assumptions C16_search_own_text_partial.
+Print Assumptions C16_search_own_text_pinned_refuted.
+Example C16_search_example :   (* <p>ab <a>cd</a> e<s c=2/>f<note>1|zz</note>g</p> : "g" is at 10 of "ab cd e  fg" *)
+  let n := Node KP 1 false (Some [Ch 0; Ch 1; Sp])
+             [Node KLink 2 false (Some [Ch 2; Ch 3]) [] (Some [Sp; Ch 4]); Node (KS 2) 0 false None [] (Some [Ch 5]);
+              Node KNote 3 false None [Node KOther 4 false (Some [Ch 9]) [] None; Node KOther 5 false None [Node KP 1 false (Some [Ch 8; Ch 8]) [] None] None] (Some [Ch 6])] None in
+  wsnt n = true /\ search_ (find_ch 6 0) n = Some 10 /\ search_ (find_ch 8 0) n = None.
+Proof. repeat split; reflexivity. Qed.
 
 Example C16_example :   (* <p>ab <span>ab</span>ab</p>, "ab" -> "X": three text nodes, three replacements *)
   let subn := fun s : str => match s with [Ch 0; Ch 1; Sp] => ([Ch 9; Sp], 1) | [Ch 0; Ch 1] => ([Ch 9], 1) | _ => (s, 0) end in
